@@ -56,11 +56,11 @@ Proof. destruct e; cbn; tauto. Qed.
 (* what a step leaves as it was, as far as the hypotheses of the liveness theorem go *)
 Definition keeps (c : nat) (s s1 : state) : Prop :=
   done s1 = done s /\ transport_closed s1 = transport_closed s /\ in_end s1 = in_end s /\ injected s1 = injected s /\
-  (forall i, In i (inbound s1) -> In i (inbound s)) /\
   c_ctx (callers s1 c) = c_ctx (callers s c) /\ c_frame (callers s1 c) = c_frame (callers s c).
 
 Lemma keeps_sub s e s1 c :
-  step fixed s e = Some s1 -> sub_event c e -> (forall d, e <> CloseFinish d) -> keeps c s s1 /\ wpc s1 = wpc s.
+  step fixed s e = Some s1 -> sub_event c e -> (forall d, e <> CloseFinish d) ->
+  keeps c s s1 /\ wpc s1 = wpc s /\ inbound s1 = inbound s.
 Proof.
   intros H Oe NC. unfold keeps.
   destruct e; cbn in Oe; try contradiction; subst;
@@ -74,8 +74,7 @@ Proof.
   intros H We NE. unfold keeps.
   destruct e; cbn in We; try contradiction;
     step_inv H; sproj; try (exfalso; apply NE; reflexivity);
-    upd_cases; sproj; repeat split; auto;
-    try (intros ? ?; now right).
+    upd_cases; sproj; repeat split; auto.
 Qed.
 
 Lemma watch_step_pc s e s1 d : step fixed s e = Some s1 -> watch_event e -> c_pc (callers s1 d) = c_pc (callers s d).
@@ -83,20 +82,41 @@ Proof.
   intros H We. destruct e; cbn in We; try contradiction; step_inv H; sproj; upd_cases; sproj; auto.
 Qed.
 
-(* the hypotheses of the liveness theorem, as one predicate on states *)
+(* the hypotheses of the liveness theorem on the call and the connection, as one predicate on states *)
 Definition ready (s : state) (c : nat) (q : Z) : Prop :=
   ereach s /\ sub s c /\ c_seq (callers s c) = q /\ done s = false /\ c_ctx (callers s c) = false /\
-  is_ok (c_frame (callers s c)) = true /\ transport_closed s = false /\ ~ In IFatal (inbound s).
+  is_ok (c_frame (callers s c)) = true /\ transport_closed s = false.
 
 Lemma ready_step s e s1 c q :
   ready s c q -> step fixed s e = Some s1 -> quiet e -> keeps c s s1 -> ready s1 c q.
 Proof.
-  intros (ER & So & Q & D & X & F & T & NF) H Qe (K1 & K2 & K3 & K4 & K5 & K6 & K7).
+  intros (ER & So & Q & D & X & F & T) H Qe (K1 & K2 & K3 & K4 & K6 & K7).
   destruct So as [L K]. destruct (step_attrs _ _ _ _ c H L) as (Ek & _ & Es & _).
   repeat split; try congruence.
   - eapply er_step; eauto using quiet_env_ok.
   - eapply step_live; eauto.
-  - intros Hin. apply NF. now apply K5.
+Qed.
+
+(* ... and on the inbound stream: among the frames readable now, none of those
+   BEFORE the response to q makes Watch give up ([IFatal]: bad length, unknown
+   command id, truncated frame).  What follows the response does not matter. *)
+Fixpoint clear_to (q : Z) (l : list item) : Prop :=
+  match l with
+  | [] => True
+  | i :: r => is_q q i = true \/ (i <> IFatal /\ clear_to q r)
+  end.
+(* the response is in c's hands already, or Watch can get to it *)
+Definition path_clear (s : state) (c : nat) (q : Z) : Prop := got s c = true \/ clear_to q (inbound s).
+
+Lemma no_fatal_clear q l : ~ In IFatal l -> clear_to q l.
+Proof.
+  induction l as [|i r IH]; cbn; [tauto|]. intros H. right. split; [intros ->; apply H; now left|].
+  apply IH. intros Hin. apply H. now right.
+Qed.
+Lemma clear_to_snoc q l i : ~ In IFatal l -> is_q q i = true -> clear_to q (l ++ [i]).
+Proof.
+  induction l as [|j r IH]; cbn; [tauto|]. intros H Qi. right. split; [intros ->; apply H; now left|].
+  apply IH; [|exact Qi]. intros Hin. apply H. now right.
 Qed.
 
 (* ---------------------------------------------------------- positive sequence numbers *)
@@ -128,47 +148,56 @@ Proof.
 Qed.
 
 (* ---------------------------------------------------------- stage 1: the request reaches the transport *)
+Definition stage1 (s : state) (c : nat) (q : Z) : Prop :=
+  exists t s1, run fixed s t = Some s1 /\ Forall (sub_event c) t /\ ready s1 c q /\ c_pc (callers s1 c) = PWaiting /\
+               injected s1 = injected s /\ in_end s1 = in_end s /\ inbound s1 = inbound s /\ got s1 c = got s c.
+
+Lemma sub_step_got s e s1 c : step fixed s e = Some s1 -> live s c -> sub_event c e -> got s1 c = got s c.
+Proof.
+  intros H L Oe. destruct (step_got _ _ _ c H L) as [G | (-> & _)]; [exact G | cbn in Oe; contradiction].
+Qed.
+
+Lemma stage1_pre s e s1 c q :
+  ready s c q -> step fixed s e = Some s1 -> sub_event c e -> (forall d, e <> CloseFinish d) ->
+  (ready s1 c q -> stage1 s1 c q) -> stage1 s c q.
+Proof.
+  intros Rd S Oe NC Next. destruct (keeps_sub _ _ _ c S Oe NC) as (Kp & _ & Ei).
+  assert (Rd1 : ready s1 c q) by (eapply ready_step; eauto using sub_event_quiet).
+  destruct (Next Rd1) as (t & s2 & Ht & Hf & Rd2 & P2 & I2 & E2 & B2 & G2).
+  exists (e :: t), s2. cbn [run]. rewrite S. split; [exact Ht|]. split; [constructor; assumption|].
+  split; [exact Rd2|]. split; [exact P2|]. destruct Kp as (_ & _ & Ke & Ki & _).
+  pose proof (sub_step_got _ _ _ c S (proj1 (proj1 (proj2 Rd))) Oe) as G1.
+  repeat split; congruence.
+Qed.
+
 Lemma to_waiting s c q :
   ready s c q ->
   c_pc (callers s c) = PStarted \/ c_pc (callers s c) = PRegistered \/ c_pc (callers s c) = PWriting ->
-  exists t s1, run fixed s t = Some s1 /\ Forall (sub_event c) t /\ ready s1 c q /\ c_pc (callers s1 c) = PWaiting /\
-               injected s1 = injected s /\ in_end s1 = in_end s.
+  stage1 s c q.
 Proof.
   intros Rd Hpc.
-  assert (St3 : forall s, ready s c q -> c_pc (callers s c) = PWriting ->
-            exists t s1, run fixed s t = Some s1 /\ Forall (sub_event c) t /\ ready s1 c q /\ c_pc (callers s1 c) = PWaiting /\
-               injected s1 = injected s /\ in_end s1 = in_end s).
+  assert (St3 : forall s, ready s c q -> c_pc (callers s c) = PWriting -> stage1 s c q).
   { clear s Rd Hpc. intros s Rd P. pose proof Rd as (_ & (_ & K) & _).
     destruct (step fixed s (WriteReturn c)) as [s1|] eqn:S; [|unfold step in S; rewrite P in S; discriminate].
-    destruct (keeps_sub _ _ _ c S eq_refl) as (Kp & _); [intros d; discriminate|].
-    exists [WriteReturn c], s1. cbn [run]. rewrite S. split; [reflexivity|]. split; [repeat constructor|].
-    split; [eapply ready_step; eauto; exact I|]. destruct Kp as (_ & _ & Ke & Ki & _).
-    split; [|split; assumption]. unfold step in S. rewrite P, K in S. injection S as <-. sproj. now rewrite upd_same. }
-  assert (St2 : forall s, ready s c q -> c_pc (callers s c) = PRegistered ->
-            exists t s1, run fixed s t = Some s1 /\ Forall (sub_event c) t /\ ready s1 c q /\ c_pc (callers s1 c) = PWaiting /\
-               injected s1 = injected s /\ in_end s1 = in_end s).
-  { clear s Rd Hpc. intros s Rd P. pose proof Rd as (ER & So & Q & _ & _ & F & T & _). pose proof So as (_ & K).
+    apply (stage1_pre s (WriteReturn c) s1 c q Rd S eq_refl); [intros d; discriminate|]. intros Rd1.
+    exists [], s1. split; [reflexivity|]. split; [constructor|]. split; [exact Rd1|].
+    split; [|repeat split; reflexivity].
+    unfold step in S. rewrite P, K in S. injection S as <-. sproj. now rewrite upd_same. }
+  assert (St2 : forall s, ready s c q -> c_pc (callers s c) = PRegistered -> stage1 s c q).
+  { clear s Rd Hpc. intros s Rd P. pose proof Rd as (ER & So & Q & _ & _ & F & T). pose proof So as (_ & K).
     pose proof (sub_pos s ER c So) as Pos. apply Z.ltb_lt in Pos.
     destruct (c_frame (callers s c)) as [f| |] eqn:Fr; try discriminate F.
     destruct (step fixed s (WireWrite c)) as [s1|] eqn:S.
     2:{ unfold step, at_send, can_write in S. rewrite P, K, Pos, T, Fr in S. discriminate S. }
-    destruct (keeps_sub _ _ _ c S eq_refl) as (Kp & _); [intros d; discriminate|].
-    assert (Rd1 : ready s1 c q) by (eapply ready_step; eauto; exact I).
-    assert (P1 : c_pc (callers s1 c) = PWriting).
-    { unfold step, at_send, can_write in S. rewrite P, K, Pos, T, Fr in S. cbn in S. injection S as <-. sproj. now rewrite upd_same. }
-    destruct (St3 s1 Rd1 P1) as (t & s2 & Ht & Hf & Rd2 & P2 & I2 & E2).
-    exists (WireWrite c :: t), s2. cbn [run]. rewrite S. split; [exact Ht|]. split; [constructor; [reflexivity | exact Hf]|].
-    destruct Kp as (_ & _ & Ke & Ki & _). split; [exact Rd2|]. split; [exact P2|]. split; congruence. }
+    apply (stage1_pre s (WireWrite c) s1 c q Rd S eq_refl); [intros d; discriminate|]. intros Rd1.
+    apply St3; [exact Rd1|].
+    unfold step, at_send, can_write in S. rewrite P, K, Pos, T, Fr in S. cbn in S. injection S as <-. sproj. now rewrite upd_same. }
   destruct Hpc as [P|[P|P]]; [|now apply St2 | now apply St3].
   pose proof Rd as (_ & (_ & K) & _).
   destruct (step fixed s (Register c)) as [s1|] eqn:S; [|unfold step in S; rewrite K, P in S; discriminate].
-  destruct (keeps_sub _ _ _ c S eq_refl) as (Kp & _); [intros d; discriminate|].
-  assert (Rd1 : ready s1 c q) by (eapply ready_step; eauto; exact I).
-  assert (P1 : c_pc (callers s1 c) = PRegistered).
-  { unfold step in S. rewrite K, P in S. cbn in S. injection S as <-. sproj. now rewrite upd_same. }
-  destruct (St2 s1 Rd1 P1) as (t & s2 & Ht & Hf & Rd2 & P2 & I2 & E2).
-  exists (Register c :: t), s2. cbn [run]. rewrite S. split; [exact Ht|]. split; [constructor; [reflexivity | exact Hf]|].
-  destruct Kp as (_ & _ & Ke & Ki & _). split; [exact Rd2|]. split; [exact P2|]. split; congruence.
+  apply (stage1_pre s (Register c) s1 c q Rd S eq_refl); [intros d; discriminate|]. intros Rd1.
+  apply St2; [exact Rd1|].
+  unfold step in S. rewrite K, P in S. cbn in S. injection S as <-. sproj. now rewrite upd_same.
 Qed.
 
 (* ---------------------------------------------------------- stage 2: Watch reaches the response *)
@@ -195,28 +224,41 @@ Proof.
 Qed.
 
 Lemma watch_delivers_n c q n : forall s,
-  (wmeasure s <= n)%nat -> ready s c q -> answered s q -> c_pc (callers s c) = PWaiting ->
+  (wmeasure s <= n)%nat -> ready s c q -> answered s q -> path_clear s c q -> c_pc (callers s c) = PWaiting ->
   exists t s1 m, run fixed s t = Some s1 /\ Forall watch_event t /\ ready s1 c q /\
                  c_pc (callers s1 c) = PWaiting /\ c_mail (callers s1 c) = Some m.
 Proof.
-  induction n as [|n IH]; intros s Hm Rd A P.
+  induction n as [|n IH]; intros s Hm Rd A PC P.
   all: destruct (got s c) eqn:G.
   1,3: unfold got in G; rewrite P in G; cbn in G; destruct (c_mail (callers s c)) as [m|] eqn:M; [|discriminate];
        exists [], s, m; (split; [reflexivity|]); (split; [constructor|]); (split; [exact Rd|]); split; assumption.
-  all: pose proof Rd as (ER & So & Q & D & X & F & T & NF); pose proof (ereach_reachable s ER) as R;
+  all: pose proof Rd as (ER & So & Q & D & X & F & T); pose proof (ereach_reachable s ER) as R;
        rewrite <- Q in A; destruct (not_lost s ER c So A) as [Qi|[G'|G']];
        [ | congruence | unfold gave_up in G'; rewrite P in G'; contradiction].
+  all: destruct PC as [PC|PC]; [congruence|].
   all: destruct (inbound s) as [|i rest] eqn:Ei; [cbn in Qi; lia|].
-  all: assert (NFi : i <> IFatal) by (intros ->; apply NF; now left).
+  all: assert (NFi : i <> IFatal) by (cbn in PC; destruct PC as [PC|[PC _]]; [intros ->; discriminate PC | exact PC]).
   all: destruct (watch_progress_open s i rest R D T Ei NFi) as (e & s1 & We & S1 & NE & Lt).
   - exfalso. lia.
   - assert (Rd1 : ready s1 c q).
     { eapply ready_step; eauto using watch_event_quiet, keeps_watch. }
-    destruct (IH s1) as (t & s2 & m & Ht & Hf & Rd2 & P2 & M2); [lia | exact Rd1 | | |].
-    + rewrite Q in A. eapply answered_grows; eauto.
-    + rewrite (watch_step_pc _ _ _ c S1 We). exact P.
-    + exists (e :: t), s2, m. cbn [run]. rewrite S1. split; [exact Ht|]. split; [constructor; assumption|].
-      split; [exact Rd2|]. split; assumption.
+    assert (A1 : answered s1 q) by (rewrite Q in A; eapply answered_grows; eauto).
+    assert (P1 : c_pc (callers s1 c) = PWaiting) by (rewrite (watch_step_pc _ _ _ c S1 We); exact P).
+    assert (PC1 : path_clear s1 c q).
+    { unfold path_clear. destruct (step_inbound _ _ _ S1) as [-> | [(i0 & -> & _) | (i0 & -> & Ei0)]].
+      - right. rewrite Ei. exact PC.
+      - cbn in We. contradiction.
+      - rewrite Ei in Ei0. injection Ei0 as <- Er. cbn in PC. rewrite <- Er. destruct PC as [Qh|[_ PC]]; [left | now right].
+        (* Watch has just consumed the response to c: it is in c's channel *)
+        pose proof Rd1 as (ER1 & So1 & Q1 & _).
+        pose proof (once_inv s ER c So) as On. rewrite Ei, G, Q in On.
+        unfold qitems in On. cbn [filter] in On. rewrite Qh in On. cbn [List.length] in On.
+        rewrite <- Q1 in A1. destruct (not_lost s1 ER1 c So1 A1) as [Q'|[G1|G1]]; [| exact G1 |].
+        + rewrite Q1, <- Er in Q'. unfold qitems in Q'. lia.
+        + unfold gave_up in G1. rewrite P1 in G1. contradiction. }
+    destruct (IH s1) as (t & s2 & m & Ht & Hf & Rd2 & P2 & M2); [lia | exact Rd1 | exact A1 | exact PC1 | exact P1 |].
+    exists (e :: t), s2, m. cbn [run]. rewrite S1. split; [exact Ht|]. split; [constructor; assumption|].
+    split; [exact Rd2|]. split; assumption.
 Qed.
 
 (* ---------------------------------------------------------- stage 3: the caller takes its response and returns *)
@@ -256,14 +298,23 @@ Proof. apply Forall_impl. intros e H. now right. Qed.
 
 (* from the select of Submit *)
 Lemma live_from_waiting s c q :
-  ready s c q -> answered s q -> c_pc (callers s c) = PWaiting ->
+  ready s c q -> answered s q -> path_clear s c q -> c_pc (callers s c) = PWaiting ->
   exists t s' m, run fixed s t = Some s' /\ Forall (live_event c) t /\ c_pc (callers s' c) = PReturned (ROk m).
 Proof.
-  intros Rd A P.
-  destruct (watch_delivers_n c q _ s (le_n _) Rd A P) as (t1 & s1 & m & H1 & F1 & Rd1 & P1 & M1).
+  intros Rd A PC P.
+  destruct (watch_delivers_n c q _ s (le_n _) Rd A PC P) as (t1 & s1 & m & H1 & F1 & Rd1 & P1 & M1).
   destruct (finish_waiting s1 c m P1 M1) as (t2 & s2 & H2 & F2 & P2).
   exists (t1 ++ t2), s2, m. split; [eapply run_cat; eauto|]. split; [|exact P2].
   apply Forall_app. split; [now apply Forall_watch_live | now apply Forall_sub_live].
+Qed.
+
+Lemma no_fail s c : ereach s -> sub s c -> done s = false -> c_ctx (callers s c) = false ->
+  is_ok (c_frame (callers s c)) = true -> transport_closed s = false -> ~ failed (c_pc (callers s c)).
+Proof.
+  intros ER So D X F T Fl. pose proof (ereach_reachable s ER) as R.
+  destruct (fail_cause s R c Fl) as [E|[E|E]]; try congruence.
+  unfold can_write in E. pose proof (sub_pos s ER c So) as Pos. apply Z.ltb_lt in Pos. rewrite Pos, T in E.
+  destruct (c_frame (callers s c)); discriminate.
 Qed.
 
 (* C05, the clause "every Submit call returns, without error, the PDU whose
@@ -272,41 +323,37 @@ Qed.
    c of Submit in progress — wherever it is: about to register, about to hand
    its frame to the transport, inside the transport Write, in its select, on its
    way out —, with Done() open, its own context not done, a frame that Marshal
-   produced, the transport not closed, the response sent by the peer (now
-   readable or already taken by Watch), and no frame before which Watch gives up
-   (IFatal) among the readable ones: the steps of c itself, of Watch and of a
-   receiving application lead c to return a PDU with its own sequence number. *)
+   produced, the transport not closed, the response sent by the peer, and that
+   response already with c or readable with no frame BEFORE it at which Watch
+   gives up: the steps of c itself, of Watch and of a receiving application
+   lead c to return a PDU with its own sequence number. *)
 Lemma submit_live s c :
   ereach s -> sub s c -> done s = false -> c_ctx (callers s c) = false ->
   is_ok (c_frame (callers s c)) = true -> transport_closed s = false ->
-  answered s (c_seq (callers s c)) -> ~ In IFatal (inbound s) ->
+  answered s (c_seq (callers s c)) ->
+  (got s c = true \/ clear_to (c_seq (callers s c)) (inbound s)) ->
   exists t s' m, run fixed s t = Some s' /\ Forall (live_event c) t /\
                  c_pc (callers s' c) = PReturned (ROk m) /\ snd m = c_seq (callers s c).
 Proof.
-  intros ER So D X F T A NF. pose proof (ereach_reachable s ER) as R.
+  intros ER So D X F T A PC. pose proof (ereach_reachable s ER) as R.
   assert (Rd : ready s c (c_seq (callers s c))) by (repeat split; auto; apply So).
   assert (Main : exists t s' m, run fixed s t = Some s' /\ Forall (live_event c) t /\ c_pc (callers s' c) = PReturned (ROk m)).
   { destruct (pc_shapes s R c) as (NW & NS). destruct (NS (proj2 So)) as (N1 & N2 & N3).
-    assert (NoFail : ~ failed (c_pc (callers s c))).
-    { intros Fl. destruct (fail_cause s R c Fl) as [E|[E|E]]; try congruence.
-      unfold can_write in E. pose proof (sub_pos s ER c So) as Pos. apply Z.ltb_lt in Pos. rewrite Pos, T in E.
-      destruct (c_frame (callers s c)); discriminate. }
+    pose proof (no_fail s c ER So D X F T) as NoFail.
+    assert (Early : stage1 s c (c_seq (callers s c)) ->
+              exists t s' m, run fixed s t = Some s' /\ Forall (live_event c) t /\ c_pc (callers s' c) = PReturned (ROk m)).
+    { intros (t1 & s1 & H1 & F1 & Rd1 & P1 & I1 & _ & B1 & G1).
+      destruct (live_from_waiting s1 c _ Rd1) as (t2 & s2 & m & H2 & F2 & P2);
+        [unfold answered in *; congruence | unfold path_clear; rewrite G1, B1; exact PC | exact P1 |].
+      exists (t1 ++ t2), s2, m. split; [eapply run_cat; eauto|]. split; [|exact P2].
+      apply Forall_app. split; [now apply Forall_sub_live | exact F2]. }
     destruct (c_pc (callers s c)) as [| | | | | |r|r|r] eqn:P.
     - exfalso. now apply (proj1 So).
-    - destruct (to_waiting s c _ Rd) as (t1 & s1 & H1 & F1 & Rd1 & P1 & I1 & _); [auto|].
-      destruct (live_from_waiting s1 c _ Rd1) as (t2 & s2 & m & H2 & F2 & P2); [unfold answered in *; congruence | exact P1 |].
-      exists (t1 ++ t2), s2, m. split; [eapply run_cat; eauto|]. split; [|exact P2].
-      apply Forall_app. split; [now apply Forall_sub_live | exact F2].
-    - destruct (to_waiting s c _ Rd) as (t1 & s1 & H1 & F1 & Rd1 & P1 & I1 & _); [auto|].
-      destruct (live_from_waiting s1 c _ Rd1) as (t2 & s2 & m & H2 & F2 & P2); [unfold answered in *; congruence | exact P1 |].
-      exists (t1 ++ t2), s2, m. split; [eapply run_cat; eauto|]. split; [|exact P2].
-      apply Forall_app. split; [now apply Forall_sub_live | exact F2].
-    - destruct (to_waiting s c _ Rd) as (t1 & s1 & H1 & F1 & Rd1 & P1 & I1 & _); [auto|].
-      destruct (live_from_waiting s1 c _ Rd1) as (t2 & s2 & m & H2 & F2 & P2); [unfold answered in *; congruence | exact P1 |].
-      exists (t1 ++ t2), s2, m. split; [eapply run_cat; eauto|]. split; [|exact P2].
-      apply Forall_app. split; [now apply Forall_sub_live | exact F2].
+    - apply Early. apply (to_waiting s c _ Rd). auto.
+    - apply Early. apply (to_waiting s c _ Rd). auto.
+    - apply Early. apply (to_waiting s c _ Rd). auto.
     - congruence.
-    - apply (live_from_waiting s c _ Rd A P).
+    - apply (live_from_waiting s c _ Rd A PC P).
     - destruct r as [m| |]; [|congruence | exfalso; apply NoFail; exact I].
       destruct (finish_leaving s c m P) as (t & s' & Ht & Hf & P'). exists t, s', m. repeat split; auto. now apply Forall_sub_live.
     - destruct r as [m| |]; [|congruence | exfalso; apply NoFail; exact I].
@@ -333,17 +380,13 @@ Lemma submit_live_unanswered s c p :
 Proof.
   intros ER So D X F T NA IE NF Ep. pose proof (ereach_reachable s ER) as R.
   set (q := c_seq (callers s c)) in *.
-  assert (Rd : ready s c q) by (split; [|split; [|split; [|split; [|split; [|split; [|split]]]]]]; auto).
+  assert (Rd : ready s c q) by (split; [|split; [|split; [|split; [|split; [|split]]]]]; auto).
   (* c is before its select or in it, with nothing received *)
-  assert (St : exists t1 s1, run fixed s t1 = Some s1 /\ Forall (sub_event c) t1 /\ ready s1 c q /\
-                 c_pc (callers s1 c) = PWaiting /\ injected s1 = injected s /\ in_end s1 = in_end s).
+  assert (St : stage1 s c q).
   { assert (G : got s c = false).
     { destruct (got s c) eqn:G; [|reflexivity]. exfalso. apply NA. now apply got_answered. }
     destruct (pc_shapes s R c) as (NW & NS). destruct (NS (proj2 So)) as (N1 & N2 & N3).
-    assert (NoFail : ~ failed (c_pc (callers s c))).
-    { intros Fl. destruct (fail_cause s R c Fl) as [E|[E|E]]; try congruence.
-      unfold can_write in E. pose proof (sub_pos s ER c So) as Pos. apply Z.ltb_lt in Pos. rewrite Pos, T in E.
-      destruct (c_frame (callers s c)); discriminate. }
+    pose proof (no_fail s c ER So D X F T) as NoFail.
     unfold got, resp_of in G.
     destruct (c_pc (callers s c)) as [| | | | | |r|r|r] eqn:P;
       try (apply (to_waiting s c q Rd); auto; fail);
@@ -351,8 +394,8 @@ Proof.
       try (destruct r as [m| |]; [destruct (c_mail (callers s c)); discriminate G | congruence | exfalso; apply NoFail; exact I]).
     - exfalso. now apply (proj1 So).
     - exists [], s. split; [reflexivity|]. split; [constructor|]. split; [exact Rd|]. auto. }
-  destruct St as (t1 & s1 & H1 & F1 & Rd1 & P1 & I1 & E1).
-  pose proof Rd1 as (ER1 & So1 & Q1 & D1 & X1 & Fr1 & T1 & NF1). pose proof (ereach_reachable s1 ER1) as R1.
+  destruct St as (t1 & s1 & H1 & F1 & Rd1 & P1 & I1 & E1 & B1 & _).
+  pose proof Rd1 as (ER1 & So1 & Q1 & D1 & X1 & Fr1 & T1). pose proof (ereach_reachable s1 ER1) as R1.
   (* the peer answers *)
   destruct (step fixed s1 (PeerFrame (IPdu p))) as [s2|] eqn:S2.
   2:{ unfold step in S2. rewrite E1, IE in S2. discriminate. }
@@ -366,12 +409,13 @@ Proof.
   { unfold step in S2. rewrite E1, IE in S2. injection S2 as <-. sproj. repeat split; reflexivity. }
   destruct Sh as (Si & Sj & Sc & Sd & St).
   assert (Rd2 : ready s2 c q).
-  { split; [eapply er_step; eauto|]. split; [eapply step_sub; eauto|]. rewrite Sc, Sd, St, Si.
-    do 5 (split; [assumption|]). rewrite in_app_iff. intros [Hin|[Hin|[]]]; [now apply NF1 | discriminate]. }
+  { split; [eapply er_step; eauto|]. split; [eapply step_sub; eauto|]. rewrite Sc, Sd, St. auto. }
   assert (A2 : answered s2 q).
   { unfold answered. rewrite Sj, peer_seqs_app, in_app_iff. right. cbn. left. exact Ep. }
   assert (P2 : c_pc (callers s2 c) = PWaiting) by (rewrite Sc; exact P1).
-  destruct (live_from_waiting s2 c q Rd2 A2 P2) as (t2 & s3 & m & H3 & F3 & P3).
+  assert (PC2 : path_clear s2 c q).
+  { right. rewrite Si, B1. apply clear_to_snoc; [exact NF|]. cbn. apply Z.eqb_eq. exact Ep. }
+  destruct (live_from_waiting s2 c q Rd2 A2 PC2 P2) as (t2 & s3 & m & H3 & F3 & P3).
   exists t1, t2, s3, m.
   assert (Hrun : run fixed s (t1 ++ PeerFrame (IPdu p) :: t2) = Some s3).
   { eapply run_cat; [exact H1|]. cbn [run]. rewrite S2. exact H3. }
@@ -381,7 +425,8 @@ Proof.
 Qed.
 
 (* non-vacuity: call 1 is inside the transport Write; its response is readable
-   behind an unsolicited PDU and an undecodable frame; call 0 has not sent anything *)
+   behind an unsolicited PDU and an undecodable frame, and a frame at which Watch
+   will give up FOLLOWS it; call 0 has registered and not sent anything *)
 Definition live_trace : list event :=
   [WatchLoop; Start 0 KSubmit 1 7%Z (Ok [7]); Start 1 KSubmit 2 8%Z (Ok [8]); Register 1; WireWrite 1;
    PeerFrame (IPdu (5, 99%Z)); PeerFrame (IBad 3%Z); PeerFrame (IPdu (2147483652, 8%Z)); Register 0].
@@ -389,12 +434,24 @@ Definition live_trace : list event :=
 Lemma submit_live_example :
   exists s, ereach s /\ sub s 1%nat /\ done s = false /\ c_ctx (callers s 1%nat) = false /\
             is_ok (c_frame (callers s 1%nat)) = true /\ transport_closed s = false /\
-            answered s (c_seq (callers s 1%nat)) /\ ~ In IFatal (inbound s) /\
+            answered s (c_seq (callers s 1%nat)) /\
+            (got s 1%nat = true \/ clear_to (c_seq (callers s 1%nat)) (inbound s)) /\
             c_pc (callers s 1%nat) = PWriting /\ wpc s = WReading /\
-            inbound s = [IPdu (5, 99%Z); IBad 3%Z; IPdu (2147483652, 8%Z)] /\
-            (* ... and call 0, not answered yet *)
-            sub s 0%nat /\ ~ answered s (c_seq (callers s 0%nat)) /\ in_end s = false /\
-            c_pc (callers s 0%nat) = PRegistered.
+            inbound s = [IPdu (5, 99%Z); IBad 3%Z; IPdu (2147483652, 8%Z); IFatal].
+Proof.
+  destruct (erunb fixed init (live_trace ++ [PeerFrame IFatal])) as [s|] eqn:E; [|vm_compute in E; discriminate].
+  exists s. split; [eapply erunb_sound; [apply er_init | exact E]|].
+  vm_compute in E. injection E as <-. unfold sub, live, answered. vm_compute.
+  repeat split; auto; try discriminate.
+  right. right. split; [discriminate|]. right. split; [discriminate|]. now left.
+Qed.
+
+Lemma submit_live_unanswered_example :
+  exists s, ereach s /\ sub s 0%nat /\ done s = false /\ c_ctx (callers s 0%nat) = false /\
+            is_ok (c_frame (callers s 0%nat)) = true /\ transport_closed s = false /\
+            ~ answered s (c_seq (callers s 0%nat)) /\ in_end s = false /\ ~ In IFatal (inbound s) /\
+            c_pc (callers s 0%nat) = PRegistered /\
+            inbound s = [IPdu (5, 99%Z); IBad 3%Z; IPdu (2147483652, 8%Z)].
 Proof.
   destruct (erunb fixed init live_trace) as [s|] eqn:E; [|vm_compute in E; discriminate].
   exists s. split; [eapply erunb_sound; [apply er_init | exact E]|].
